@@ -57,7 +57,7 @@ MANIFEST = dict(
 )
 
 
-ENGINE_MODES = ("engine", "cancel", "provfail")
+ENGINE_MODES = ("engine", "cancel", "provfail", "staged")
 
 # ------------------------------------------------------------------------------------------ build
 
@@ -94,7 +94,8 @@ def design(thorough):
            ("AggregatorMC", "Aggregator_exh_q2.cfg"), ("AggregatorMC", "Aggregator_exh_block_q2.cfg"),
            ("ShutdownMC", "Shutdown_exh.cfg"), ("ShutdownMC", "Shutdown_exh_drop.cfg"),
            # engine await loop composed with the aggregator (PoolAgg.tla)
-           ("PoolAggMC", "PoolAgg_exh_nofault.cfg"), ("PoolAggMC", "PoolAgg_exh_small.cfg"),
+           ("PoolAggMC", "PoolAgg_exh_nofault.cfg"), ("PoolAggMC", "PoolAgg_exh_schedend.cfg"),
+           ("PoolAggMC", "PoolAgg_exh_small.cfg"),
            # result destinations (Sink.tla): own files as coded; what a repair of the shared file must establish
            ("SinkMC", "Sink_exh.cfg"), ("SinkMC", "Sink_repair.cfg"),
            ("AggregatorMC", "Aggregator_exh_discard.cfg")]
@@ -102,14 +103,18 @@ def design(thorough):
         pos += [("AggregatorMC", "Aggregator_exh_big.cfg"), ("ShutdownMC", "Shutdown_exh_q2.cfg"),
                 ("ShutdownMC", "Shutdown_exh_big.cfg"),
                 ("PoolAggMC", "PoolAgg_exh.cfg"), ("PoolAggMC", "PoolAgg_exh_block.cfg"),
+                ("PoolAggMC", "PoolAgg_exh_small2.cfg"), ("PoolAggMC", "PoolAgg_live_nofault.cfg"),
                 ("PoolAggMC", "PoolAgg_live.cfg"), ("PoolAggMC", "PoolAgg_exh_big.cfg")]
     neg = [("AggregatorMC", "Aggregator_neg_nodrain.cfg"), ("AggregatorMC", "Aggregator_neg_noflush.cfg"),
            ("AggregatorMC", "Aggregator_neg_nocount.cfg"), ("AggregatorMC", "Aggregator_neg_late.cfg"),
            ("ShutdownMC", "Shutdown_neg_nowait.cfg"), ("ShutdownMC", "Shutdown_neg_reach.cfg"),
-           ("PoolAggMC", "PoolAgg_neg_early.cfg"), ("PoolAggMC", "PoolAgg_neg_early_complete.cfg"),
+           ("PoolAggMC", "PoolAgg_neg_early.cfg"),
+           # out of ammo during the start-up calls runCancel() instead of instanceStartCancel() (seed C06-8)
+           ("PoolAggMC", "PoolAgg_neg_ooa.cfg"), ("PoolAggMC", "PoolAgg_neg_ooa_start.cfg"),
            ("SinkMC", "Sink_neg_samefile.cfg"), ("SinkMC", "Sink_neg_append_midline.cfg"), ("SinkMC", "Sink_neg_latetrunc.cfg")]
     if thorough:
-        neg += [("PoolAggMC", "PoolAgg_neg_reach.cfg")]
+        neg += [("PoolAggMC", "PoolAgg_neg_reach.cfg"), ("PoolAggMC", "PoolAgg_neg_early_complete.cfg"),
+                ("PoolAggMC", "PoolAgg_neg_ooa_complete.cfg")]
     vlib.spec_copy()
 
     def one(mc):
@@ -308,9 +313,9 @@ def run(tier, v):
     ncases, cstates, ctrans, csamples = format_cases(v, vdrive, d)
     # M1 in-process
     agg_path = os.path.join(d, "agg.ndjson")
-    nruns, neng, ncan, nstress, nprov, nother = (5000, 300, 1500, 40, 700, 400) if thorough else (300, 24, 40, 4, 24, 30)
+    nruns, neng, ncan, nstress, nprov, nother, nstaged = (5000, 300, 1500, 40, 700, 400, 400) if thorough else (300, 24, 40, 4, 24, 30, 20)
     vlib.run_driver(vdrive, ["agg", "-out", agg_path, "-runs", str(nruns), "-engine", str(neng), "-cancel", str(ncan),
-                             "-dropstress", str(nstress), "-provfail", str(nprov), "-other", str(nother)], timeout=3000)
+                             "-dropstress", str(nstress), "-provfail", str(nprov), "-other", str(nother), "-staged", str(nstaged)], timeout=3000)
     rows = vlib.read_ndjson(agg_path)
     # real engine runs (hooks of the await loop merged with report / line events) answer to PoolAgg's trace
     # specification, which re-uses every action of TraceAggregator; direct runs to TraceAggregator itself
@@ -354,7 +359,7 @@ def run(tier, v):
         "in_process_runs": {"validated": agg_validated, "events": len(rows), "reports": nrep, "lines": nlines,
                             "dropped": ndrop, "runs_with_drops": droprun, "engine_runs": neng, "engine_runs_cancelled_midway": ncan,
                             "modes": {m: sum(1 for r in rows if r["ev"] == "Run" and r["mode"] == m)
-                                      for m in ("normal", "late", "burst", "engine", "cancel", "provfail", "dropstress")},
+                                      for m in ("normal", "late", "burst", "engine", "cancel", "provfail", "staged", "dropstress")},
                             "engine_runs_provider_failed_midway": nprov,
                             "kinds": {k: sum(1 for r in rows if r["ev"] == "Run" and r["kind"] == k)
                                       for k in ("phout", "jsonlines", "log", "discard")}, "engine_hook_events": nhooks,
